@@ -197,7 +197,7 @@ def gen_term(rng):
     else:
         from . import gen_v2
 
-        g = gen_v2.gen_hierarchy(rng, max_flows=5, loops=True, main_kids_first=True)
+        g = gen_v2.gen_hierarchy(rng, max_flows=5, loops=True, main_kids_first=True, ext_end=rng.random() < 0.3)
         src = g["src"]
     hist = ["E%d" % rng.randint(1, 3) for _ in range(rng.randint(3, 10))]
     return src, hist, meta
